@@ -18,6 +18,14 @@ mod replay;
 fn main() {
     let args: Vec<String> = std::env::args().skip(1).collect();
     run::install_quiet_panic_hook();
-    let code = checks::dispatch(&args);
+    // a panic which escapes an engine is a failure of the machinery (exit 3), never a verdict
+    let code = match std::panic::catch_unwind(|| checks::dispatch(&args)) {
+        Ok(c) => c,
+        Err(_) => {
+            let msg = run::LAST_PANIC.lock().ok().and_then(|l| l.clone()).unwrap_or_default();
+            eprintln!("MACHINERY-ERROR: the harness itself panicked ({}): {}", args.join(" "), msg);
+            3
+        }
+    };
     std::process::exit(code);
 }
